@@ -4,6 +4,7 @@ import (
 	"bytes"
 	"fmt"
 	"net"
+	"os"
 	"strings"
 
 	"layeh.com/radius"
@@ -486,6 +487,12 @@ func init() {
 			}
 		}
 		c.Flush()
+		if os.Getenv("VERIF_SYNTH_STAGE2") != "" {
+			return
+		}
+		if c.Thorough() {
+			runSynthetic(c, r, 12, "C13")
+		}
 		c.RequireTags("read-built", "read-parsed", "read-hostile", "scribbled", "parse-buffer-overwritten", "mem-built", "mem-hostile")
 	}
 }
